@@ -867,7 +867,20 @@ impl Interp {
     /// Validates a freshly returned handle (C01, C17) and records it.
     fn on_created(&mut self, e: Entity, merged: bool, pending: bool, path: &str) -> Verdict {
         let id = e.id();
-        ensure!("C01", "dup-handle", !self.seen.contains(&e), "{} returned {:?}, a handle that was returned before", path, e);
+        if self.seen.contains(&e) {
+            let dup = v("C01", "dup-handle", format!("{} returned {:?}, a handle that was returned before", path, e));
+            let focus = crate::engine::focus();
+            // A re-issued handle whose first owner is dead is C01's business, but what the dead
+            // owner's copy of the handle can now reach is C03 / C05 / ...'s: when another property
+            // is being checked, keep the old (dead) handle beside the new (live) one and go on, so
+            // that the stale-handle and purge oracles get to see the consequences.
+            if focus.is_empty() || focus == "C01" || self.occupant.contains_key(&id) {
+                return Err(dup);
+            }
+            if self.deferred_other.is_none() {
+                self.deferred_other = Some(dup);
+            }
+        }
         ensure!("C01", "gen-not-positive", e.gen().id() > 0, "{} returned {:?} with a non-positive generation", path, e);
         if let Some(&o) = self.occupant.get(&id) {
             return Err(v(
@@ -1954,7 +1967,11 @@ impl Interp {
         let mut soft: Vec<Violation> = vec![];
         for group in 0..4 {
             if let Err(v) = self.check_group(group) {
-                if group == 0 || group == 2 {
+                // A dead handle that the world reports alive is C02's business, but the model's timeline
+                // is unaffected by it, and what such a handle can then read or change is exactly what
+                // C03 is about: under the C03 check the history goes on.
+                let stale_alive = group == 1 && v.prop == "C02" && v.signature.starts_with("dead-reported-alive") && crate::engine::focus() == "C03";
+                if group == 0 || group == 2 || stale_alive {
                     soft.push(v);
                 } else {
                     found.push(v);
